@@ -140,7 +140,11 @@ func mutateLeaf(w *rc.W, r *core.Rand) bool {
 			return false
 		}
 		its := append([]rc.W{}, w.Items...)
+		// a value, or (half of the time) a key: then one key of each side is missing from the other
 		k := r.Intn(len(its)/2)*2 + 1
+		if r.Bool() {
+			k--
+		}
 		ok := mutateLeaf(&its[k], r)
 		w.Items = its
 		return ok
